@@ -32,15 +32,15 @@ type P struct {
 
 // Op is one management Interest entering at an application face.
 type Op struct {
-	Face  int    `json:"f"`             // arrival face (index into faceSpecs)
-	Pfx   string `json:"pfx"`           // management prefix used in the name
-	Mod   string `json:"m"`             // module component
-	Verb  string `json:"v"`             // verb component
-	Form  string `json:"form"`          // signed | plain | noparam | garbage | empty | wrongtlv | trunc | ds | dsx | announce
-	P     P      `json:"p"`             // parameters (forms signed, plain, wrongtlv, trunc)
-	Raw   []byte `json:"raw,omitempty"` // parameter component (form garbage)
-	Lp    bool   `json:"lp,omitempty"`  // sent inside an LpPacket carrying a PIT token
-	Fresh bool   `json:"mbf,omitempty"` // MustBeFresh on a command Interest
+	Face  int    `json:"f"`              // arrival face (index into faceSpecs)
+	Pfx   string `json:"pfx"`            // management prefix used in the name
+	Mod   string `json:"m"`              // module component
+	Verb  string `json:"v"`              // verb component
+	Form  string `json:"form"`           // signed | plain | noparam | garbage | empty | wrongtlv | trunc | ds | dsx | announce
+	P     P      `json:"p"`              // parameters (forms signed, plain, wrongtlv, trunc)
+	Raw   []byte `json:"raw,omitempty"`  // parameter component (form garbage)
+	Lp    bool   `json:"lp,omitempty"`   // sent inside an LpPacket carrying a PIT token
+	Fresh bool   `json:"mbf,omitempty"`  // MustBeFresh on a command Interest
 	Hint  string `json:"hint,omitempty"` // a forwarding hint (one delegation) carried by the Interest
 	Probe int    `json:"probe,omitempty"`
 
